@@ -343,6 +343,10 @@ func recogniseOrCombinator(p *Program, m *RouterModel) (ok bool, why string) {
 	}
 	inner, okf2 := conv.Args[0].(*ast.FuncLit)
 	if !okf2 {
+		// the closure turned into a method of a small struct: http.HandlerFunc(authOrHandler{fns: fns, next: next}.serve)
+		inner, okf2 = p.inliner().methodValueAsFuncLit(conv.Args[0])
+	}
+	if !okf2 {
 		return false, "authMiddlewareOr: the handler is not a function literal"
 	}
 	var names []*ast.Ident
